@@ -136,7 +136,7 @@ func (t *tdrv) Par(msgs [][]int) []string { // the in-memory driver is single-th
 }
 
 func (t *tdrv) Deliveries() []pr.Dlv { g := t.got; t.got = nil; return g }
-func (t *tdrv) Teardown()            {}
+func (t *tdrv) Teardown() string     { return "" }
 
 type Graph struct {
 	Inits []string                          `json:"inits"`
